@@ -16,7 +16,7 @@ def register(chk):
             for alias in (0, 1):
                 if op == "reduce" and alias:
                     continue
-                chk.add("%s:fpbase_384_%s:alias=%d" % (cfg, op, alias), c02.ob_fpbase, cfg, N, op, alias)
+                chk.add("%s:fpbase_384_%s:alias=%d" % (cfg, op, alias), c02.ob_fpbase, cfg, N, op, alias, False, True)      # all 384-bit operands
                 if chk.tier == "thorough":
                     chk.add("%s:fpbase_384_%s:alias=%d:deep" % (cfg, op, alias), c02.ob_fpbase, cfg, N, op, alias, True)
         chk.add("%s:bigint_384_compare" % cfg, c02.ob_bigint, cfg, N, "compare", 0)
